@@ -642,7 +642,7 @@ def main(tier, replay=None):
     # ---- part (b): the placer
     place_consts = {"MaxL": "5" if quick else "6", "MaxStmts": "3" if quick else "4", "MaxCmts": "4",
                     "Spices": '{"frag", "glue", "look"}', "KnownDevs": tla_set(kplace),
-                    "EmitEvery": "40" if quick else "60", "EmitPhase": str(sd % 40 if quick else sd % 60)}
+                    "EmitEvery": "41" if quick else "61", "EmitPhase": str(sd % 41 if quick else sd % 61)}
     place_cfg = write_cfg(gd, "place", place_consts, "PlaceInit", "PlaceNext",
                           ["Deterministic", "EachOnce", "InOrder", "BeforeLaterCode", "FixedPoint", "PlaceEmit"])
     rp = tlc("MC_Fmt", place_cfg, "Fmt placer (EachOnce, InOrder, BeforeLaterCode, FixedPoint; Deviations = {})")
